@@ -24,6 +24,8 @@ func c20Pool() []replLine {
 		{"1 +;", true, "syntax"}, {Print("1")[:len(Print("1"))-1], true, "syntax"}, {")", true, "syntax"}, {"{", true, "syntax"}, {"1 = 2;", true, "syntax"},
 		{"1 / 0;", true, "runtime"}, {"নেই;", true, "runtime"}, {"nil.k;", true, "runtime"}, {BI("len", "5") + ";", true, "runtime"}, {Break(), true, "runtime"}, {Ret("1"), true, "runtime"},
 		{Print("1") + " 1 / 0; " + Print("2"), true, "runtime"},
+		// braces and brackets inside strings and comments are text, not structure
+		{Print(`"}"`), true, "print"}, {Print(`"{"`), true, "print"}, {Print("1") + " // :-}", true, "print"}, {`"{x}}";`, true, "echo"}, {Print(`"(("`) + " /* }} */", true, "print"}, {`["]", "["];`, true, "echo"},
 		// echo of a value that holds a self-containing member
 		{Var("ka", "[1]") + " ka[0] = ka; [ka];", true, "echo"}, {Var("pa", "{}") + " " + Var("ch", "{up: pa}") + " pa.down = ch; ({w: pa});", true, "echo"},
 		// output produced by a statement that then fails belongs to that line's response
@@ -245,6 +247,15 @@ func c20Run(c *Ctx) {
 		}
 		if c.Mine() {
 			c20Judge(c, &Case{Gen: "runtime-fault-lines", Src: strings.Join([]string{fl, BI("len", "[1, 2, 3]") + ";", fl, Print("1 + 2"), BI("max", "[4, 9]") + ";"}, "\n"), X: map[string]string{"final_newline": "1", "all_self": "1", "fault": f.name}})
+		}
+	}
+	// a line that recurses 150 000 calls deep (bounded) is answered like any other, and so are the lines after it
+	for _, deep := range []string{
+		Fun("sum", "n", " "+If("n == 0", "{ "+Ret("0")+" }")+" "+Ret("n + sum(n - 1)")+" ") + " sum(150000);",
+		Fun("dn", "n", " "+If("n == 0", "{ "+Ret("missing_name")+" }")+" "+Ret("dn(n - 1)")+" ") + " dn(150000);",
+	} {
+		if c.Mine() {
+			c20Judge(c, &Case{Gen: "deep-lines", Src: strings.Join([]string{Print("1 + 2"), deep, BI("len", "[1, 2, 3]") + ";", Print(`"after"`)}, "\n"), X: map[string]string{"final_newline": "1"}})
 		}
 	}
 	// long sessions: hundreds of lines, dominated by failing lines (state that accumulates
